@@ -249,7 +249,9 @@ def run_s3(case: Dict[str, Any], strategy: Any) -> Dict[str, Any]:
     if case.get("hb_steps", 0):
         sched.spawn("hb", hb_actor, daemonic=True)
 
-    with SchedEnv(sched, None, store):
+    from vf.fakes3 import VirtualNow
+
+    with VirtualNow(store.clock), SchedEnv(sched, None, store):
         store.before.append(before)      # after the gate hook: sees the state at effect time
         outcome = sched.run()
     jump = case.get("clock_steps", 1) * (LEASE + 5.0)
